@@ -5,6 +5,7 @@ package main
 
 import (
 	"fmt"
+	"hash/fnv"
 	"sort"
 	"strconv"
 	"strings"
@@ -255,33 +256,64 @@ func MkSlice(arr, ln, cp Term) Term {
 var NilSlice = Term{"(mk_slice 0 0 0)", SSlice}
 var NilAny = Term{"nil_any", SAny}
 
-// quote makes an SMT quoted symbol out of an arbitrary name.
+// quote makes a plain SMT symbol out of an arbitrary name: characters outside
+// the simple-symbol alphabet are replaced and a short hash of the original
+// name keeps the result unique (cvc5 1.0 mishandles |quoted| symbols in
+// datatype testers, so quoted symbols are avoided altogether).
 func quote(name string) string {
-	name = strings.ReplaceAll(name, "|", "!")
-	name = strings.ReplaceAll(name, "\\", "!")
-	simple := true
+	simple := name != "" && !(name[0] >= '0' && name[0] <= '9')
 	for _, r := range name {
-		if !(r >= 'a' && r <= 'z' || r >= 'A' && r <= 'Z' || r >= '0' && r <= '9' || r == '_' || r == '.' || r == '!' || r == '$') {
+		if !(r >= 'a' && r <= 'z' || r >= 'A' && r <= 'Z' || r >= '0' && r <= '9' || r == '_' || r == '.' || r == '!' || r == '$' || r == '@') {
 			simple = false
 			break
 		}
 	}
-	if simple && name != "" && !(name[0] >= '0' && name[0] <= '9') {
+	if simple {
 		return name
 	}
-	return "|" + name + "|"
+	var b strings.Builder
+	for _, r := range name {
+		if r >= 'a' && r <= 'z' || r >= 'A' && r <= 'Z' || r >= '0' && r <= '9' || r == '_' || r == '.' || r == '$' || r == '@' {
+			b.WriteRune(r)
+		} else {
+			b.WriteByte('_')
+		}
+	}
+	h := fnv.New32a()
+	h.Write([]byte(name))
+	out := b.String()
+	if out[0] >= '0' && out[0] <= '9' {
+		out = "s" + out
+	}
+	return fmt.Sprintf("%s_%06x", out, h.Sum32()&0xffffff)
 }
 
 // Script accumulates declarations and assertions in order. It is a persistent
 // structure: Fork shares the prefix.
 type Script struct {
-	lines []string
+	lines    []string
+	declared map[string]bool
 }
 
 func (s *Script) Fork() *Script {
-	n := &Script{lines: make([]string, len(s.lines), len(s.lines)+64)}
+	n := &Script{lines: make([]string, len(s.lines), len(s.lines)+64), declared: make(map[string]bool, len(s.declared))}
 	copy(n.lines, s.lines)
+	for k := range s.declared {
+		n.declared[k] = true
+	}
 	return n
+}
+
+// Declare adds a declaration (with its axioms) once per path.
+func (s *Script) Declare(name, text string) {
+	if s.declared == nil {
+		s.declared = map[string]bool{}
+	}
+	if s.declared[name] {
+		return
+	}
+	s.declared[name] = true
+	s.lines = append(s.lines, text)
 }
 
 func (s *Script) Add(line string)   { s.lines = append(s.lines, line) }
